@@ -343,6 +343,13 @@ Definition dispatch_c18 (tag : N) (a : LL) : LL :=
   | _ => [[99]]
   end.
 
+(* C10: does a frame reach a handler (run.go's filter) *)
+Definition dispatch_c10 (tag : N) (a : LL) : LL :=
+  match tag with
+  | 1001 => [[b2n (match decode_chain (arg a 0) with Some _ => true | None => false end)]]
+  | _ => [[99]]
+  end.
+
 Definition dispatch (tag : N) (a : list (list N)) : list (list N) :=
   if (1300 <=? tag) && (tag <? 1400) then dispatch_c13 tag a
   else if (1200 <=? tag) && (tag <? 1300) then dispatch_c12 tag a
@@ -350,4 +357,5 @@ Definition dispatch (tag : N) (a : list (list N)) : list (list N) :=
   else if (100 <=? tag) && (tag <? 1000) then dispatch_server tag a
   else if (1700 <=? tag) && (tag <? 1800) then dispatch_c17 tag a
   else if (1800 <=? tag) && (tag <? 1900) then dispatch_c18 tag a
+  else if (1000 <=? tag) && (tag <? 1100) then dispatch_c10 tag a
   else [[99]].
